@@ -422,6 +422,9 @@ package template
 //@   requires !isnil(tmpl.nameSpace.set[name]) ==> !isnil(tmpl.nameSpace.set[name].text)
 //@   requires members: forallkey(w, haskeym(tmpl.nameSpace.set, w) ==> !isnil(tmpl.nameSpace.set[w]) && !isnil(tmpl.nameSpace.set[w].text))
 //@   requires owner: tmpl.nameSpace.esc.ns == tmpl.nameSpace
+//@   requires escmaps: !isnil(tmpl.nameSpace.esc.output) && !isnil(tmpl.nameSpace.esc.derived) && !isnil(tmpl.nameSpace.esc.called)
+//@   requires derivedok: forallkey(w, haskeym(tmpl.nameSpace.esc.derived, w) ==> !isnil(tmpl.nameSpace.esc.derived[w]))
+//@   requires editkeys: forallref(p, haskeym(tmpl.nameSpace.esc.actionNodeEdits, p) || haskeym(tmpl.nameSpace.esc.templateNodeEdits, p) || haskeym(tmpl.nameSpace.esc.textNodeEdits, p) ==> !isnil(p))
 //@   option allocates
 //@   option modifies Template.escapeErr Template.Tree TT_Template.Tree @ANALYSIS
 //@   ensures once: isnil(err) ==> forallref(p, !haskeym(tmpl.nameSpace.esc.actionNodeEdits, p) && !haskeym(tmpl.nameSpace.esc.templateNodeEdits, p) && !haskeym(tmpl.nameSpace.esc.textNodeEdits, p))
@@ -437,6 +440,9 @@ package template
 //@   requires treesync: isnil(t.escapeErr) ==> t.Tree == t.text.Tree
 //@   requires members: forallkey(w, haskeym(t.nameSpace.set, w) ==> !isnil(t.nameSpace.set[w]) && !isnil(t.nameSpace.set[w].text))
 //@   requires owner: t.nameSpace.esc.ns == t.nameSpace
+//@   requires escmaps: !isnil(t.nameSpace.esc.output) && !isnil(t.nameSpace.esc.derived) && !isnil(t.nameSpace.esc.called)
+//@   requires derivedok: forallkey(w, haskeym(t.nameSpace.esc.derived, w) ==> !isnil(t.nameSpace.esc.derived[w]))
+//@   requires editkeys: forallref(p, haskeym(t.nameSpace.esc.actionNodeEdits, p) || haskeym(t.nameSpace.esc.templateNodeEdits, p) || haskeym(t.nameSpace.esc.textNodeEdits, p) ==> !isnil(p))
 //@   option allocates
 //@   option modifies Template.escapeErr Template.Tree TT_Template.Tree nameSpace.escaped @ANALYSIS
 //@   option locks true
@@ -454,6 +460,9 @@ package template
 //@   requires treesync: isnil(t.escapeErr) ==> t.Tree == t.text.Tree
 //@   requires members: forallkey(w, haskeym(t.nameSpace.set, w) ==> !isnil(t.nameSpace.set[w]) && !isnil(t.nameSpace.set[w].text))
 //@   requires owner: t.nameSpace.esc.ns == t.nameSpace
+//@   requires escmaps: !isnil(t.nameSpace.esc.output) && !isnil(t.nameSpace.esc.derived) && !isnil(t.nameSpace.esc.called)
+//@   requires derivedok: forallkey(w, haskeym(t.nameSpace.esc.derived, w) ==> !isnil(t.nameSpace.esc.derived[w]))
+//@   requires editkeys: forallref(p, haskeym(t.nameSpace.esc.actionNodeEdits, p) || haskeym(t.nameSpace.esc.templateNodeEdits, p) || haskeym(t.nameSpace.esc.textNodeEdits, p) ==> !isnil(p))
 //@   option allocates
 //@   option modifies Template.escapeErr Template.Tree TT_Template.Tree nameSpace.escaped $written @ANALYSIS
 //@   option locks true
@@ -470,6 +479,9 @@ package template
 //@   requires treesync: isnil(t.escapeErr) ==> t.Tree == t.text.Tree
 //@   requires members: forallkey(w, haskeym(t.nameSpace.set, w) ==> !isnil(t.nameSpace.set[w]) && !isnil(t.nameSpace.set[w].text))
 //@   requires owner: t.nameSpace.esc.ns == t.nameSpace
+//@   requires escmaps: !isnil(t.nameSpace.esc.output) && !isnil(t.nameSpace.esc.derived) && !isnil(t.nameSpace.esc.called)
+//@   requires derivedok: forallkey(w, haskeym(t.nameSpace.esc.derived, w) ==> !isnil(t.nameSpace.esc.derived[w]))
+//@   requires editkeys: forallref(p, haskeym(t.nameSpace.esc.actionNodeEdits, p) || haskeym(t.nameSpace.esc.templateNodeEdits, p) || haskeym(t.nameSpace.esc.textNodeEdits, p) ==> !isnil(p))
 //@   option allocates
 //@   option modifies Template.escapeErr Template.Tree TT_Template.Tree nameSpace.escaped $written @ANALYSIS
 //@   option locks true
@@ -484,6 +496,9 @@ package template
 //@   requires insync: !isnil(t.nameSpace.set[name]) ==> !isnil(ttlookup(t.text, name))
 //@   requires members: forallkey(w, haskeym(t.nameSpace.set, w) ==> !isnil(t.nameSpace.set[w]) && !isnil(t.nameSpace.set[w].text))
 //@   requires owner: t.nameSpace.esc.ns == t.nameSpace
+//@   requires escmaps: !isnil(t.nameSpace.esc.output) && !isnil(t.nameSpace.esc.derived) && !isnil(t.nameSpace.esc.called)
+//@   requires derivedok: forallkey(w, haskeym(t.nameSpace.esc.derived, w) ==> !isnil(t.nameSpace.esc.derived[w]))
+//@   requires editkeys: forallref(p, haskeym(t.nameSpace.esc.actionNodeEdits, p) || haskeym(t.nameSpace.esc.templateNodeEdits, p) || haskeym(t.nameSpace.esc.textNodeEdits, p) ==> !isnil(p))
 //@   option allocates
 //@   option modifies Template.escapeErr Template.Tree TT_Template.Tree nameSpace.escaped @ANALYSIS
 //@   option locks true
@@ -500,6 +515,9 @@ package template
 //@   requires insync: !isnil(t.nameSpace.set[name]) ==> !isnil(ttlookup(t.text, name))
 //@   requires members: forallkey(w, haskeym(t.nameSpace.set, w) ==> !isnil(t.nameSpace.set[w]) && !isnil(t.nameSpace.set[w].text))
 //@   requires owner: t.nameSpace.esc.ns == t.nameSpace
+//@   requires escmaps: !isnil(t.nameSpace.esc.output) && !isnil(t.nameSpace.esc.derived) && !isnil(t.nameSpace.esc.called)
+//@   requires derivedok: forallkey(w, haskeym(t.nameSpace.esc.derived, w) ==> !isnil(t.nameSpace.esc.derived[w]))
+//@   requires editkeys: forallref(p, haskeym(t.nameSpace.esc.actionNodeEdits, p) || haskeym(t.nameSpace.esc.templateNodeEdits, p) || haskeym(t.nameSpace.esc.textNodeEdits, p) ==> !isnil(p))
 //@   option allocates
 //@   option modifies Template.escapeErr Template.Tree TT_Template.Tree nameSpace.escaped $written @ANALYSIS
 //@   option locks true
@@ -513,6 +531,9 @@ package template
 //@   requires insync: !isnil(t.nameSpace.set[name]) ==> !isnil(ttlookup(t.text, name))
 //@   requires members: forallkey(w, haskeym(t.nameSpace.set, w) ==> !isnil(t.nameSpace.set[w]) && !isnil(t.nameSpace.set[w].text))
 //@   requires owner: t.nameSpace.esc.ns == t.nameSpace
+//@   requires escmaps: !isnil(t.nameSpace.esc.output) && !isnil(t.nameSpace.esc.derived) && !isnil(t.nameSpace.esc.called)
+//@   requires derivedok: forallkey(w, haskeym(t.nameSpace.esc.derived, w) ==> !isnil(t.nameSpace.esc.derived[w]))
+//@   requires editkeys: forallref(p, haskeym(t.nameSpace.esc.actionNodeEdits, p) || haskeym(t.nameSpace.esc.templateNodeEdits, p) || haskeym(t.nameSpace.esc.textNodeEdits, p) ==> !isnil(p))
 //@   option allocates
 //@   option modifies Template.escapeErr Template.Tree TT_Template.Tree nameSpace.escaped $written @ANALYSIS
 //@   option locks true
@@ -714,3 +735,20 @@ package template
 //@   ensures once: fresh(e.actionNodeEdits) && fresh(e.templateNodeEdits) && fresh(e.textNodeEdits) && fresh(e.called)
 //@   ensures cleared: forallref(p, !haskeym(e.actionNodeEdits, p) && !haskeym(e.templateNodeEdits, p) && !haskeym(e.textNodeEdits, p))
 //@   ensures memo: e.output == old(e.output) && e.derived == old(e.derived)
+
+//@ func (e *escaper) escapeTree(c context, node parse.Node, name string, line int) (r context, dname string)
+//@   serves C05 C06 C08
+//@   option embedded nameSpace.esc
+//@   option allocates
+//@   option nopanic
+//@   option modifies @ANALYSISMAPS @DERIVEDTREES
+//@   ensures treesfresh: onlyfresh("TT_Template.Tree parse_Tree.Name#b parse_Tree.Name#o parse_Tree.Name#l")
+//@   requires !isnil(e.ns) && !isnil(e.ns.set)
+//@   requires escmaps: !isnil(e.output) && !isnil(e.derived) && !isnil(e.called)
+//@   ensures escmaps: !isnil(e.output) && !isnil(e.derived) && !isnil(e.called)
+//@   requires members: forallkey(w, haskeym(e.ns.set, w) ==> !isnil(e.ns.set[w]) && !isnil(e.ns.set[w].text))
+//@   requires derivedok: forallkey(w, haskeym(e.derived, w) ==> !isnil(e.derived[w]))
+//@   requires editkeys: forallref(p, haskeym(e.actionNodeEdits, p) || haskeym(e.templateNodeEdits, p) || haskeym(e.textNodeEdits, p) ==> !isnil(p))
+//@   ensures named: c.state == stateText ==> sameview(dname, name)
+//@   ensures derivedok: forallkey(w, haskeym(e.derived, w) ==> !isnil(e.derived[w]))
+//@   ensures editkeys: forallref(p, haskeym(e.actionNodeEdits, p) || haskeym(e.templateNodeEdits, p) || haskeym(e.textNodeEdits, p) ==> !isnil(p))
